@@ -5,6 +5,17 @@
 //! sibling, or appended when there is none); `l0` is built and mounted, every further
 //! list is a `rebuild`.
 //!
+//! case `(20 npre npost (l0 … ln) (shape_0 … shape_{p-1}))` — "shaped rows": the row of key `k` is the
+//! view described by `shape_{k mod p}`, every child position type-erased with `into_any()`:
+//!   s ::= (0) text | (1) `()` | (2) `<span>` | (3 s s [s]) tuple | (4 s…) keyed list (keys 0.., one item
+//!         per s) | (5 s…) Vec | (6) None | (6 s) Some | (7 side s) Either | (8 branch s) EitherOf3
+//!       | (9 s [s [s]]) array | (10 s…) StaticVec (non-empty)
+//! so that a row can BE a keyed list (nested lists) or start with a list / Option / Either / … whose
+//! `Mountable::insert_before_this` the outer `apply_diff` calls when it moves or adds a row in front
+//! of it.  A text / span node of the row is labelled `key.gen.j`, `j` = its index among ALL the
+//! top-level nodes the row owns in mount order (the markers of inner lists and the placeholders of
+//! `()` / `None` count, and are reported as comments).
+//!
 //! observation: one entry per step `(children log)`:
 //! * children of the parent, each `(key gen j prev)`: `key` ≥ 0 list item (`gen` = number
 //!   of the `view_fn` call that built it, `j` = node index within the item), −1/−2 =
@@ -14,10 +25,16 @@
 //!   `(2 key gen)` item unmounted, `(3 key gen idx)` `view_fn(idx, key)` called.
 use crate::util::parent_with_siblings;
 use std::{cell::RefCell, rc::Rc};
+use either_of::{Either, EitherOf3};
 use tachys::{
     html::element::{span, ElementChild},
     renderer::dom::{Element, Kind, Node},
-    view::{keyed::keyed, Mountable, Render},
+    view::{
+        any_view::{AnyView, IntoAny},
+        iterators::StaticVec,
+        keyed::keyed,
+        Mountable, Render,
+    },
 };
 use vsexp::{Lst, Num, Sexp};
 
@@ -125,10 +142,97 @@ fn go<V: Render>(c: &Sexp, mk: impl Fn(i64, i64) -> V + Copy) -> Sexp {
     Lst(out)
 }
 
+/// the view of one shaped row; `j` counts the top-level nodes the row owns, in mount order
+fn shaped(s: &Sexp, k: i64, g: i64, j: &mut i64) -> AnyView {
+    let mut label = |j: &mut i64| {
+        let t = format!("{k}.{g}.{}", *j);
+        *j += 1;
+        t
+    };
+    let args = &s.list()[1..];
+    match s.at(0).num() {
+        0 => label(j).into_any(),
+        1 => {
+            *j += 1;
+            ().into_any()
+        }
+        2 => span().child(label(j)).into_any(),
+        3 => {
+            let mut kids: Vec<AnyView> = args.iter().map(|x| shaped(x, k, g, j)).collect();
+            if kids.len() == 2 {
+                let b = kids.pop().unwrap();
+                let a = kids.pop().unwrap();
+                (a, b).into_any()
+            } else {
+                let c = kids.pop().unwrap();
+                let b = kids.pop().unwrap();
+                let a = kids.pop().unwrap();
+                (a, b, c).into_any()
+            }
+        }
+        4 => {
+            // rows first, then the list's own marker
+            let items: Vec<(usize, AnyView)> = args.iter().map(|x| shaped(x, k, g, j)).enumerate().collect();
+            *j += 1;
+            keyed(items, |kv: &(usize, AnyView)| kv.0, |_i: usize, kv: (usize, AnyView)| (|_: usize| {}, kv.1)).into_any()
+        }
+        5 => {
+            let kids: Vec<AnyView> = args.iter().map(|x| shaped(x, k, g, j)).collect();
+            *j += 1;
+            kids.into_any()
+        }
+        6 => match args.first() {
+            Some(x) => Some(shaped(x, k, g, j)).into_any(),
+            None => {
+                *j += 1;
+                None::<AnyView>.into_any()
+            }
+        },
+        7 => {
+            let child = shaped(s.at(2), k, g, j);
+            if s.at(1).num() == 0 {
+                Either::<AnyView, AnyView>::Left(child).into_any()
+            } else {
+                Either::<AnyView, AnyView>::Right(child).into_any()
+            }
+        }
+        8 => {
+            let child = shaped(s.at(2), k, g, j);
+            match s.at(1).num() {
+                0 => EitherOf3::<AnyView, AnyView, AnyView>::A(child).into_any(),
+                1 => EitherOf3::<AnyView, AnyView, AnyView>::B(child).into_any(),
+                _ => EitherOf3::<AnyView, AnyView, AnyView>::C(child).into_any(),
+            }
+        }
+        9 => {
+            let mut kids: Vec<AnyView> = args.iter().map(|x| shaped(x, k, g, j)).collect();
+            match kids.len() {
+                1 => [kids.pop().unwrap()].into_any(),
+                2 => {
+                    let b = kids.pop().unwrap();
+                    let a = kids.pop().unwrap();
+                    [a, b].into_any()
+                }
+                _ => {
+                    let c = kids.pop().unwrap();
+                    let b = kids.pop().unwrap();
+                    let a = kids.pop().unwrap();
+                    [a, b, c].into_any()
+                }
+            }
+        }
+        _ => StaticVec::from(args.iter().map(|x| shaped(x, k, g, j)).collect::<Vec<AnyView>>()).into_any(),
+    }
+}
+
 pub fn run(c: &Sexp) -> Sexp {
     let t = |k: i64, g: i64, j: i64| format!("{k}.{g}.{j}");
     match c.at(0).num() {
         11 | 12 => crate::c11for::run(c),
+        20 => {
+            let shapes = c.at(4).list();
+            go(c, |k, g| shaped(&shapes[k as usize % shapes.len()], k, g, &mut 0))
+        }
         1 => go(c, |k, g| t(k, g, 0)),
         2 => go(c, |k, g| (t(k, g, 0), t(k, g, 1))),
         3 => go(c, |k, g| (t(k, g, 0), span().child(t(k, g, 1)), t(k, g, 2))),
